@@ -664,16 +664,24 @@ def _donor(kind_t, crs):
     return dd
 
 
+NOEPSG_CRSS = ("+proj=laea +lat_0=52 +lon_0=10 +x_0=4321000 +y_0=3210000 +ellps=GRS80 +units=m +no_defs", "ESRI:54009")
+
+
 def gen_wrap_inputs(tier):
     def g():
         for kind in KINDS:
             for shape in SHAPES:
-                for crs in CRSS:
+                for crs in CRSS + NOEPSG_CRSS:
                     if not valid_combo(kind, shape, crs):
                         continue
                     for entry in WRAP_ENTRIES:
                         for tk in TIME_KINDS:
-                            for cname in ("spatial_ref", "crs"):
+                            # None: no CRS coordinate at all, the axis attributes are the only carrier of the CRS (axis-aligned
+                            # grids with at least two rows and columns only: rotation, control points and the pixel size of
+                            # a single row/column live on the CRS coordinate)
+                            for cname in ("spatial_ref", "crs") + ((None,) if kind in ("north-up", "mirrored") and crs is not None and 1 not in shape else ()):
+                                if crs in NOEPSG_CRSS and tk not in ("none", "list", "borrowed-other-crs"):
+                                    continue
                                 yield (kind, shape, crs, entry, tk, cname)
 
     return g
@@ -699,7 +707,7 @@ def run_wrap_inputs(case):
         tm = xr.DataArray(np.asarray(["2020-01-01", "2020-01-02"], dtype="datetime64[ns]"), dims=("time",))
     else:
         tm = _donor(tk, crs).time
-    cls = f"{kind}:{'x'.join('1' if n == 1 else 'n' for n in shape)}:{entry}:time-{tk}:crsname-{'default' if cname == 'spatial_ref' else 'custom'}"
+    cls = f"{kind}:{'x'.join('1' if n == 1 else 'n' for n in shape)}:{entry}:time-{tk}:crsname-{'default' if cname == 'spatial_ref' else 'custom' if cname else 'none'}:{'epsg' if crs in CRSS else 'no-epsg-code'}"
     r = R(outcome=f"wrap-inputs:{entry}:time-{tk}:{kind}")
     what = f"{case}"
     if entry.startswith("xr_zeros") and tk == "str":
